@@ -236,7 +236,11 @@ static std::string statusOf(const ModelPtr &m, bool deep)
     std::string s = "unlinked=" + std::to_string(m->hasUnlinkedUnits()) + ",imports=" + std::to_string(m->hasImports())
                     + ",units=" + std::to_string(m->unitsCount()) + ",comps=" + std::to_string(m->componentCount());
     if (deep) {
+        // Model::isDefined() re-reads the math strings (utilities.cpp findCnUnitsNames -> multiRootXml -> convertToString): it is
+        // itself a call that sets libxml2's flag; the observation must not disturb the history, so the flag is put back
+        int saved = xmlKeepBlanksDefault(1);
         s += ",unresolved=" + std::to_string(m->hasUnresolvedImports()) + ",defined=" + std::to_string(m->isDefined());
+        xmlKeepBlanksDefault(saved);
     }
     return s;
 }
